@@ -57,12 +57,17 @@ def _check(prop, tier, seed, replay, work, t0):
     violations, known = [], []
     lines = open(trace).read().splitlines() if viol else []
     seen = set()
+    # one verdict per scenario and violation name (a loop that never goes quiet yields one violation per round trip)
+    judged = set()
     for v in viol:
         names = sorted(n_ for n_ in v["names"] if n_.startswith(prop + "_"))
         if not names:
             continue
+        if (v["trace"], names[0]) in judged:
+            continue
+        judged.add((v["trace"], names[0]))
         j = v["line"] - 1
-        while j > 0 and json.loads(lines[j])["ev"] != "Reset":
+        while j > 0 and '"ev":"Reset"' not in lines[j]:
             j -= 1
         hdr = json.loads(lines[j])
         sig = {"invariant": names[0], "mode": hdr["mode"], "snapshot": hdr["snapshot"]}
@@ -74,9 +79,9 @@ def _check(prop, tier, seed, replay, work, t0):
             continue
         seen.add(v["trace"])
         k = v["line"]
-        while k < len(lines) and json.loads(lines[k])["ev"] != "Reset":
+        while k < len(lines) and '"ev":"Reset"' not in lines[k]:
             k += 1
-        path = vlib.save_replay(prop, "l%d" % v["trace"], {"property": prop, "invariants": names, "at_event": v["line"] - j, "events": [json.loads(x) for x in lines[j:k]]})
+        path = vlib.save_replay(prop, "l%d" % v["trace"], {"property": prop, "invariants": names, "at_event": v["line"] - j, "events": [json.loads(x) for x in lines[j:min(k, j + 4000)]]})
         ev = json.loads(lines[v["line"] - 1])
         what = dict(ev)
         for fld in ("cmds", "keys"):
